@@ -358,6 +358,24 @@ fn extract(idx: u64, rng: &mut Rng, mon: &mut Mon) {
         mon.held();
         mon.nontrivial(crate::rng::hash_str(&g.text));
     }
+    // parameters() and the solver returned by to_robot() carry the extracted geometry and signs: its forward kinematics
+    // is the reference chain of the generating parameters
+    {
+        let params = p.parameters(&[0.0; 6]);
+        let rp = crate::refmodel::RParams { a1: g.a1, a2: g.a2, b: g.b, c1: g.c1, c2: g.c2, c3: g.c3, c4: g.c4, offsets: [0.0; 6], signs: g.signs, dof: 6 };
+        let same = [(g.a1, params.a1), (g.a2, params.a2), (g.b, params.b), (g.c1, params.c1), (g.c2, params.c2), (g.c3, params.c3), (g.c4, params.c4)].iter().all(|(x, y)| (x - y).abs() <= 1e-12) && params.sign_corrections == g.signs;
+        let robot = p.to_robot(0.0, &[0.0; 6]);
+        let q = crate::gen::joints_uniform(rng, PI);
+        let want = crate::refmodel::fk(&rp, &q);
+        let got = crate::gen::iso_to_fr(&robot.forward(&q));
+        let fk_ok = crate::refmodel::pos_dist(&got, &want) <= 1e-9 * (1.0 + rp.reach()) && crate::refmodel::rot_angle(&got.r, &want.r) <= 1e-9;
+        mon.count("extract.solver_forward_checked");
+        if !same || !fk_ok {
+            mon.violation(if !same { "extract:parameters()-differ-from-the-extraction" } else { "extract:solver-forward-differs-from-the-generating-chain" }, "parameters() / to_robot() do not carry the extracted geometry", detail(json!({"q": jf(&q), "parameters_b": params.b, "position_error": crate::refmodel::pos_dist(&got, &want)})));
+        } else {
+            mon.held();
+        }
+    }
     // the solver built from the extraction judges angles by the generator's arcs (limited joints) and accepts
     // everything on unlimited ones
     {
